@@ -118,9 +118,10 @@ theorem caller_loop_order_dependent :
     ∃ π₁ π₂ : List Caller, π₁.Perm π₂ ∧ unionTableNames π₁ ≠ unionTableNames π₂ :=
   ⟨[none, some "None"], [some "None", none], List.Perm.swap _ _ _, by decide⟩
 
-/-! ## The `_permissioned_tagmaps` line prints a set (D15) -/
+/-! ## The `_permissioned_tagmaps` line (D15, repaired in /repo: the members are printed sorted) -/
 
-/-- **order-dependent**: with two omitted callers the line has two possible texts -/
+/-- the form before the repair (the set itself was printed) is **order-dependent**: with two omitted callers the line
+has two possible texts. Regression statement: it is why `sort_sites_covered` insists on the `sorted(..)` site. -/
 theorem tagmaps_order_dependent :
     ∃ π₁ π₂ : List String, π₁.Perm π₂ ∧ π₁.Nodup ∧ tagmapsLine "U" π₁ ≠ tagmapsLine "U" π₂ :=
   ⟨["alpha", "beta"], ["beta", "alpha"], List.Perm.swap _ _ _, by decide, by decide⟩
@@ -135,7 +136,7 @@ theorem tagmaps_order_free_small (cls : String) {π₁ π₂ : List String} (hp 
     | [x], _, ha, hb => simp at ha hb; rw [ha, hb]
   rw [this]
 
-/-- printing the sorted members (the repaired form) is order-free -/
+/-- the line as generated today (sorted members) is order-free -/
 theorem tagmaps_sorted_order_free (cls : String) {π₁ π₂ : List String} (hp : π₁.Perm π₂) :
     tagmapsLineSorted cls π₁ = tagmapsLineSorted cls π₂ := by
   unfold tagmapsLineSorted; rw [sorted_strings_order_free hp]
@@ -333,8 +334,11 @@ theorem route_io_namespaces_end_to_end (self : String) {π₁ π₂ : List TyRef
     routeIoNamespaces ρ₁ = routeIoNamespaces ρ₂ :=
   route_io_namespaces_order_free (SetOrder.perm h₁ h₂ (route_io_foreign_members self hp))
 
-/-- order-dependent for same-named types of two namespaces (the bare name is the key). No built-in backend calls
-`get_route_io_data_types` other than through `get_namespaces_imported_by_route_io`, so no generated file shows it. -/
+/-- order-dependent for same-named types of two namespaces (the bare name is the key): with `route r(x.T, y.T, Void)` in
+namespace `m`, `m.get_route_io_data_types()` returns `x.T`, `y.T` in set (address) order -- observed on the real code.
+NOT reachable from any built-in backend: the only caller inside stone is `get_namespaces_imported_by_route_io`, whose
+result is order-free whatever the names (`route_io_namespaces_end_to_end`), so no generated file shows it; a custom
+backend calling the API function directly would see it. -/
 theorem route_io_types_order_dependent :
     ∃ π₁ π₂ : List TyRef, π₁.Perm π₂ ∧ π₁.Nodup ∧ routeIoTypes π₁ ≠ routeIoTypes π₂ :=
   ⟨[("a", "T"), ("b", "T")], [("b", "T"), ("a", "T")], List.Perm.swap _ _ _, by decide, by decide⟩
